@@ -9,6 +9,7 @@ HARNESSES = {
     'c04': dict(flavour='asan', srcs=['c04.cpp']),
     'c15': dict(flavour='asan', srcs=['c15.cpp']),
     'c09': dict(flavour='asan', srcs=['c09.cpp']),
+    'c03': dict(flavour='asan', srcs=['c03.cpp']),
 }
 
 PROPS = {
@@ -142,6 +143,21 @@ PROPS = {
              'lies within the stated rounding tolerance are counted (label uncertain_phase) and not judged.',
         assumptions=['growing_size_percentile P is read as: at or above the ceil(n(100-P)/100)-th largest by usage minus protection',
                      'kill_by_pressure compares whole percentage points'],
+    ),
+    'C03': dict(
+        harness='c03', level='exploration',
+        quick=dict(shards=8, n=600, size=100),
+        thorough=dict(shards=16, n=25000, size=100),
+        rule='rapidcheck-generated trees (depth <=4, <=14 cgroups) with every combination of prefer/avoid xattrs '
+             '(trusted. and user., both at once), memory.oom.group, populated flags (incl. zombies), metric ties and '
+             'per-cgroup kill outcomes (killable / no pid can be signalled), all five plugins, recursive and not, '
+             'multi-pattern targets. Oracle: a search for an execution of the documented DFS (siblings by preference '
+             'then RankModel key, descend unless oom.group, skip unpopulated, next-best on failure with backtracking, '
+             'stop at first success; any order among keys within tolerance) that reproduces the observed attempt '
+             'sequence. Non-trivial = >=1 failed attempt followed by a successful one, or prefer and avoid both '
+             'present with >=1 attempt.',
+        assumptions=['the root cgroup is not generated as a ranked target (its statistics come from host files)',
+                     'cases whose ranking hits a rounding-uncertain phase comparison are counted and not judged'],
     ),
 }
 
